@@ -26,6 +26,7 @@ let build_arg (items : Sx.t list) : AotTree.arg =
   let short = ref None and long = ref None and sa = ref [] and la = ref [] in
   let act = ref AotTree.ASet and num = ref None and pvs = ref [] and has_pvs = ref false in
   let hint = ref None and glob = ref false and hide = ref false and req = ref false in
+  let x_vn = ref [] and x_term = ref None and x_last = ref false and x_cx = ref [] and x_grp = ref [] in
   Stdlib.List.iter (fun it ->
     let l = Sx.args it in
     match Sx.head it with
@@ -48,13 +49,18 @@ let build_arg (items : Sx.t list) : AotTree.arg =
     | "global" -> glob := true
     | "hide" -> hide := true
     | "required" -> req := true
-    | "cx" -> ()  (* conflicts_with: read by the zsh generator only *)
+    | "vn" -> x_vn := !x_vn @ Stdlib.List.map bytes_of l        (* value_names *)
+    | "term" -> x_term := Some (bytes_of (Stdlib.List.hd l))                 (* value_terminator *)
+    | "last" -> x_last := true
+    | "cx" -> x_cx := !x_cx @ Stdlib.List.map bytes_of l        (* conflicts_with_all: ids in the order given *)
+    | "grp" -> x_grp := !x_grp @ Stdlib.List.map bytes_of l     (* groups(..) *)
     | h -> failwith ("unknown arg item " ^ h)) (Stdlib.List.tl items);
   { AotTree.a_id = id; a_short = !short; a_long = !long;
     a_short_aliases = Stdlib.List.rev !sa; a_aliases = Stdlib.List.rev !la;
     a_action = !act; a_num = !num;
     a_pvs = (if !has_pvs then Some (Stdlib.List.rev !pvs) else None);
-    a_hint = !hint; a_global = !glob; a_hide = !hide; a_required = !req }
+    a_hint = !hint; a_global = !glob; a_hide = !hide; a_required = !req;
+    a_value_names = !x_vn; a_terminator = !x_term; a_last = !x_last; a_blacklist = !x_cx; a_groups = !x_grp }
 
 let rec build_cmd (items : Sx.t list) : AotTree.cmd =
   let name = bytes_of (Stdlib.List.hd items) in
